@@ -10,7 +10,7 @@ RULE = (
     "texts (<= 4 KB) from (a) a weighted alphabet of Hy's syntax-significant characters and tokens, (b) arbitrary Unicode "
     "text (incl. NUL, lone surrogates, astral and combining characters), (c) repetitions of one or two tokens (nesting depth <= 80 each: the reader's time grows roughly cubically with nesting depth, 2.6 s at depth 150, so deeper inputs only cost time), (d) unclosed prefixes nested deeper than the interpreter's recursion limit allows, (e) well-formed Engine-B programs cut at a random point with a trailing newline/space/stray delimiter appended, (f) mutations (delete/insert/duplicate/swap "
     "spans, flip a delimiter, truncate) of windows of /repo/tests/**/*.hy; oracle: list(hy.read_many(text)) returns models "
-    "or raises LexException/PrematureEndOfInput, nothing else, within 60 s (re-run with 600 s before reporting); non-trivial = the text contains a "
+    "or raises LexException/PrematureEndOfInput, nothing else, within 20 s (re-run with 120 s before reporting; the read runs in a helper process that can be killed); non-trivial = the text contains a "
     "syntax-significant character ( ) [ ] { } \" # \\ ; ' ` ~ and is distinct"
 )
 ASSUMPTIONS = ["termination is observed through a 20 s limit per read (alarm inside a helper process, which is killed if the read is stuck in C code), re-run with 120 s (inputs normally read in < 10 ms)"]
